@@ -117,7 +117,35 @@ thread_local! {
 }
 static LAST_PANIC_GLOBAL: Mutex<Option<String>> = Mutex::new(None);
 
+pub fn last_panic_global() -> Option<String> {
+    LAST_PANIC_GLOBAL.lock().ok().and_then(|g| g.clone())
+}
+
+/// A `log` sink that formats every record and throws it away.  With it installed at level Debug the
+/// library's debug!/warn!/error! statements are *executed* (their arguments evaluated, their Display/Debug
+/// impls run), as in an application that has logging switched on; without a logger they are dead code.
+struct FormattingSink;
+
+impl log::Log for FormattingSink {
+    fn enabled(&self, _: &log::Metadata) -> bool {
+        true
+    }
+    fn log(&self, record: &log::Record) {
+        use std::io::Write;
+        let _ = write!(std::io::sink(), "{}", record.args());
+    }
+    fn flush(&self) {}
+}
+
+static SINK: FormattingSink = FormattingSink;
+
 pub fn install_quiet_panic_hook() {
+    if std::env::var("VERIF_NO_LOG").is_err() && log::set_logger(&SINK).is_ok() {
+        // Debug, not Trace: affinitree itself logs at debug..error; at Trace minilp 0.2.2 runs a statistics line
+        // (lu.rs:284) whose usize subtraction underflows in builds with overflow checks - a defect of the
+        // dependency's logging, not of the code under test
+        log::set_max_level(log::LevelFilter::Debug);
+    }
     std::panic::set_hook(Box::new(|info| {
         let loc = info.location().map(|l| format!("{}:{}", l.file(), l.line())).unwrap_or_default();
         let msg = if let Some(s) = info.payload().downcast_ref::<&str>() {
